@@ -25,6 +25,24 @@ Example C20_guard_tight :
   msvcrt_parse DDpost2008 (join (fun _ => false) [[97; c_bs; c_nl]]) = [[97; c_bs; c_bs; c_nl]].
 Proof. split; reflexivity. Qed.
 
+(* splitting a joined line is the inverse of joining (same domain) *)
+Theorem C20_split_join : forall us args,
+  Forall (fun s => win_ok s = true) args -> split (join us args) = args.
+Proof. exact split_join. Qed.
+Print Assumptions C20_split_join.
+
+Theorem C20_split_join_no_newline : forall us args,
+  Forall (fun s => ~ In c_nl s) args -> split (join us args) = args.
+Proof. exact split_join_no_newline. Qed.
+Print Assumptions C20_split_join_no_newline.
+
+(* observation for the maintainers (not required by the property): on arbitrary text split drops an
+   unterminated final backslash run, so it is not a total inverse of other writers
+   (list2cmdline writes the argument a-backslash as a-backslash) *)
+Example C20_split_not_total_inverse :
+  split [97; c_bs] = [[97]] /\ msvcrt_parse DDpost2008 [97; c_bs] = [[97; c_bs]].
+Proof. split; reflexivity. Qed.
+
 (* quoting a jbos of alternating str / shell_literal bits denotes the concatenation, in any context *)
 Theorem C20_jbos_concat : forall us dd ep bits,
   bits <> [] -> jbos_ok false bits = true ->
